@@ -80,6 +80,9 @@ class Gen:
             parts.append(f'orphans:{rng.choice([1, 2, 3, 4])};widows:{rng.choice([1, 2, 3, 4])}')
         if rng.random() < 0.05:
             parts.append('box-decoration-break:clone')
+        if rng.random() < 0.06:
+            # tall decoration: pushes what follows close to (or beyond) the bottom of the page
+            parts.append(f'padding-bottom:{rng.choice([15, 30, 55, 85, 140])}px')
         return ';'.join(parts)
 
     def paragraph(self, kind='flow'):
@@ -104,7 +107,15 @@ class Gen:
                 out.append(self.table(depth))
             elif r < 0.78 and self.allow('columns') and kind == 'flow' and depth == 0:
                 self.features.add('columns')
-                inner = self.inside('columns', lambda: self.flow(depth + 2, kind))
+                def column_content():
+                    parts = [self.flow(depth + 2, kind)]
+                    if rng.random() < 0.4:
+                        self.features.add('column-span')
+                        parts.append(f'<p style="column-span:all;{self.block_style()}">'
+                                     f'{self.inline_text(kind, rng.choice([1, 2, 4]))}</p>')
+                        parts.append(self.flow(depth + 2, kind))
+                    return ''.join(parts)
+                inner = self.inside('columns', column_content)
                 out.append(f'<div style="columns:{rng.choice([2, 3])};column-gap:4px">{inner}</div>')
             elif r < 0.84 and self.allow('flex') and kind == 'flow':
                 self.features.add('flex')
@@ -164,7 +175,24 @@ class Gen:
         return (f'<table style="{collapse}border-spacing:1px">{head}{foot}<tbody>{"".join(rows)}</tbody></table>')
 
 
-def gen(rng, features=None):
+def columns_focus(g, rng, height, line):
+    """A multi-column container at the top of the document whose spanning block leaves 0..2 lines of room."""
+    g.features.update({'columns', 'column-span'})
+
+    def content():
+        parts = []
+        if rng.random() < 0.4:
+            parts.append(g.paragraph('flow'))
+        room = rng.choice([0, line // 2, line, 2 * line])
+        pad = max(0, height - line - room)
+        parts.append(f'<p style="column-span:all;margin:0;padding-bottom:{pad}px">{g.inline_text("flow", 1)}</p>')
+        parts.append(''.join(g.paragraph('flow') for _ in range(rng.choice([1, 2, 3]))))
+        return ''.join(parts)
+    inner = g.inside('columns', content)
+    return f'<div style="columns:{rng.choice([2, 3])};column-gap:0">{inner}</div>'
+
+
+def gen(rng, features=None, focus=None):
     """Return dict(html, groups, page=(w, h), features)."""
     g = Gen(rng, features)
     font = rng.choice([4, 6, 8, 10])
@@ -172,7 +200,11 @@ def gen(rng, features=None):
     width = rng.choice([60, 100, 160, 240])
     height = rng.choice([line, 2 * line + 1, 40, 60, 100, 200])
     margin = rng.choice([0, 0, 2, 5])
-    body = g.flow(0)
+    if focus == 'columns':
+        height = rng.choice([40, 60, 100])
+        body = columns_focus(g, rng, height - 2 * margin, line) + g.flow(0, budget=1)
+    else:
+        body = g.flow(0)
     html = (f'<html><head><style>@page{{size:{width}px {height}px;margin:{margin}px}}'
             f'html,body{{margin:0}}body{{font-size:{font}px;line-height:{line}px}}'
             f'p,ul,ol{{margin:0}}td,th{{padding:0;border:1px solid}}</style></head><body>{body}</body></html>')
